@@ -142,9 +142,10 @@ Step(S, ev) ==
              E2 == IF live /\ ~had /\ ev.res # None THEN [E1 EXCEPT ![ev.h] = <<<<ev.res[1]>>, @[2], @[3], @[4]>>] ELSE E1
              E3 == FnDel(E2, W.doomed)
          IN [S |-> put(E3, [W EXCEPT !.doomed = {}]),
-             f |-> (IF live /\ ev.res = None THEN {F("C15", "a lazily built marked entity carries no marker after maintain", ev.h)} ELSE {})
+             \* (marking through a lazy builder is deferred work applied by maintain: charged to C09 as well)
+             f |-> (IF live /\ ev.res = None THEN {F(p, "a lazily built marked entity carries no marker after maintain", ev.h) : p \in {"C15", "C09"}} ELSE {})
               \cup (IF had /\ ev.res # E[ev.h][1]
-                    THEN {F("C15", "lazy marking of an already marked entity did not keep its existing marker", <<ev.h, E[ev.h][1], ev.res>>)} ELSE {})
+                    THEN {F(p, "lazy marking of an already marked entity did not keep its existing marker", <<ev.h, E[ev.h][1], ev.res>>) : p \in {"C15", "C09"}} ELSE {})
               \cup (IF live /\ ~had /\ ev.res # None /\ Carrier(E, ev.res[1]) # {}
                     THEN {F("C15", "a fresh marker collides with a live entity's marker", <<ev.h, ev.res>>)} ELSE {})
               \cup cmp(E3, "C15", "maintain applying a lazy marked builder")]
